@@ -623,17 +623,54 @@ func (c *spendCtx) buildOne(t *Tape, class string) {
 			explicit = append(explicit, coin.Op)
 			sum += coin.Amount
 		}
+		// 1-4 distinct recipients sharing the payment; a random non-empty
+		// subset of them bears the fee (in equal shares) when subtract is set
 		pay := sum * int64(20+t.Int(70)) / 100
-		hh, _ := w.Gen.pickPayee(t, 30)
-		dest := w.Gen.addrString(hh)
-		a, _ := massutil.NewAmountFromInt(pay)
-		amounts := map[string]massutil.Amount{dest: a}
-		var sub map[string]struct{}
-		subtract := t.Bool(30)
-		if subtract {
-			sub = map[string]struct{}{dest: {}}
+		nRec := 1 + t.Weighted([]int{5, 2, 3, 2})
+		type rcpt struct {
+			hh   [32]byte
+			dest string
+			amt  int64
+			sub  bool
 		}
-		what = fmt.Sprintf("CreateRawTransaction(%d inputs worth %d, pay=%d subtractFee=%v change=%q lock=%d)", len(inputs), sum, pay, subtract, change, lockTime)
+		var rc []rcpt
+		amounts := map[string]massutil.Amount{}
+		for i := 0; i < nRec; i++ {
+			hh, _ := w.Gen.pickPayee(t, 30)
+			dest := w.Gen.addrString(hh)
+			if _, dup := amounts[dest]; dup {
+				continue
+			}
+			amt := pay / int64(nRec)
+			a, _ := massutil.NewAmountFromInt(amt)
+			amounts[dest] = a
+			rc = append(rc, rcpt{hh: hh, dest: dest, amt: amt})
+		}
+		var sub map[string]struct{}
+		subtract := t.Bool(40)
+		nSub := 0
+		if subtract {
+			sub = map[string]struct{}{}
+			for i := range rc {
+				if t.Bool(60) {
+					rc[i].sub = true
+				}
+			}
+			if !rc[0].sub && t.Bool(80) {
+				rc[0].sub = true
+			}
+			for i := range rc {
+				if rc[i].sub {
+					sub[rc[i].dest] = struct{}{}
+					nSub++
+				}
+			}
+			if nSub == 0 {
+				subtract = false
+				sub = nil
+			}
+		}
+		what = fmt.Sprintf("CreateRawTransaction(%d inputs worth %d, %d recipients of %d each, %d of them bearing the fee, change=%q lock=%d)", len(inputs), sum, len(rc), pay/int64(nRec), nSub, change, lockTime)
 		if !inst.RunCall("CreateRawTransaction", true, func() {
 			hexTx, fee, err = inst.WM.CreateRawTransaction(inputs, amounts, lockTime, change, sub)
 		}) {
@@ -643,11 +680,24 @@ func (c *spendCtx) buildOne(t *Tape, class string) {
 			w.Stat("check.build_refused")
 			return // manual path: refusal reasons (dust, not enough inputs) are not asserted here
 		}
-		if subtract {
-			// the recipient bears the fee: output reduced by exactly the fee
-			wantOuts = append(wantOuts, wantOut{stdScript(hh), pay - fee.IntValue()})
-		} else {
-			wantOuts = append(wantOuts, wantOut{stdScript(hh), pay})
+		if nSub > 1 {
+			w.Stat("probe.fee_shared_by_several_recipients")
+			if nSub > 2 {
+				w.Stat("probe.fee_shared_by_three_or_more")
+			}
+		}
+		for _, r := range rc {
+			if r.sub {
+				// the fee-bearing recipients share the fee equally; together
+				// they give up exactly the reported fee
+				if fee.IntValue()%int64(nSub) != 0 {
+					w.Violate(class+".fee-share", "%s: the reported fee %d is not what %d equal shares add up to", what, fee.IntValue(), nSub)
+					return
+				}
+				wantOuts = append(wantOuts, wantOut{stdScript(r.hh), r.amt - fee.IntValue()/int64(nSub)})
+			} else {
+				wantOuts = append(wantOuts, wantOut{stdScript(r.hh), r.amt})
+			}
 		}
 		userFee = 0
 	}
